@@ -151,12 +151,13 @@ def shipped_parser_verdict(names):
 def check(c):
     if c["part"] == "lexer":
         text = c["text"]
-        want, ties = ref.lexer().tokens(text, with_ties=True)
-        want_t = [(t.type, t.text if t.type != -1 else "<EOF>", t.start, t.stop, t.line, t.col) for t in want]
+        want, ties = ref.lexer().tokens(text, with_ties=True, hidden=True)
+        want_t = [(t.type, t.text if t.type != -1 else "<EOF>", t.start, t.stop, t.line, t.col) + ((1,) if t.name.endswith("@hidden") else ())
+                  for t in want]
         out = Outcome(key="L:" + text, classes=["lexer"], sample={"part": "lexer", "text": text, "tokens": [t.name for t in want]})
         out.nontrivial = len(want) >= 4 and ties > 0
         try:
-            got = ref.shipped_tokens(text)
+            got = ref.shipped_tokens(text, hidden=True)
         except RecursionError:
             raise
         except Exception as e:
@@ -167,7 +168,7 @@ def check(c):
             g = ref.grammar()
 
             def nm(t):
-                return "EOF" if t[0] == -1 else (g.token_names[t[0] - 1] if 0 < t[0] <= len(g.token_names) else str(t[0]))
+                return "EOF" if t[0] == -1 else (g.token_names[t[0] - 1] if 0 < t[0] <= len(g.token_names) else str(t[0])) + ("@hidden" if len(t) > 6 else "")
             a = got[i] if i < len(got) else None
             b = want_t[i] if i < len(want_t) else None
             cls = "%s-vs-%s" % (nm(a) if a else "none", nm(b) if b else "none")
@@ -315,6 +316,63 @@ def artefact_findings():
         if getattr(blackbirdParser, n, None) != i + 1 or getattr(blackbirdLexer, n, None) != i + 1:
             finds.append(("artefact|python-token-constants", "token constant %s is %r/%r, grammar order gives %d" % (
                 n, getattr(blackbirdParser, n, None), getattr(blackbirdLexer, n, None), i + 1)))
+    for i, n in enumerate(g.rule_names):
+        compared += 1
+        if getattr(blackbirdParser, "RULE_" + n, None) != i:
+            finds.append(("artefact|python-rule-constants", "blackbirdParser.RULE_%s is %r, grammar order gives %d" % (
+                n, getattr(blackbirdParser, "RULE_" + n, None), i)))
+    # the enums of the generated C++ headers: token constants (both headers) and rule constants
+    for fn in ("blackbirdLexer.h", "blackbirdParser.h"):
+        enums = [dict((k, int(v)) for k, v in re.findall(r"\b([A-Za-z_]\w*)\s*=\s*(\d+)", body))
+                 for body in re.findall(r"\benum\s*\{([^}]*)\}", _read(os.path.join(CPP, fn)))]
+        tok_enum = next((e for e in enums if "PLUS" in e or g.token_names[0] in e), None)
+        compared += 1
+        if tok_enum != {n: i + 1 for i, n in enumerate(g.token_names)}:
+            want_ = {n: i + 1 for i, n in enumerate(g.token_names)}
+            bad_ = sorted(k for k in set(want_) | set(tok_enum or {}) if want_.get(k) != (tok_enum or {}).get(k))
+            finds.append(("artefact|cpp-%s-token-enum" % fn, "token enum of %s differs from the grammar's token numbering at %r: header %r, grammar %r" % (
+                fn, bad_[:6], {k: (tok_enum or {}).get(k) for k in bad_[:6]}, {k: want_.get(k) for k in bad_[:6]})))
+        if fn == "blackbirdParser.h":
+            rule_enum = next((e for e in enums if any(k.startswith("Rule") for k in e)), None)
+            want_ = {"Rule" + n[0].upper() + n[1:]: i for i, n in enumerate(g.rule_names)}
+            compared += 1
+            if rule_enum != want_:
+                bad_ = sorted(k for k in set(want_) | set(rule_enum or {}) if want_.get(k) != (rule_enum or {}).get(k))
+                finds.append(("artefact|cpp-rule-enum", "rule enum of blackbirdParser.h differs from the grammar's rule order at %r" % (bad_[:6],)))
+    # the generated recursive-descent code of the two parsers walks the same automaton: the sequence of state numbers, matched
+    # tokens, prediction decisions and alternative numbers in the C++ source equals that of the Python source (whose language
+    # is compared with the grammar dynamically)
+    def skeleton(txt, cpp):
+        pats = ([("state", r"setState\((\d+)\)"), ("match", r"\bmatch\(blackbirdParser::(\w+)\)"), ("predict", r"adaptivePredict\(_input, (\d+), _ctx\)"),
+                 ("alt", r"enterOuterAlt\(_localctx, (\d+)\)"), ("tok", r"\bblackbirdParser::([A-Z][A-Z_]*)\b(?!Context)")] if cpp else
+                [("state", r"self\.state = (\d+)"), ("match", r"self\.match\(blackbirdParser\.(\w+)\)"), ("predict", r"adaptivePredict\(self\._input,(\d+),self\._ctx\)"),
+                 ("alt", r"self\.enterOuterAlt\(localctx, (\d+)\)"), ("tok", r"\bblackbirdParser\.([A-Z][A-Z_]*)\b")])
+        ev = []
+        for kind, pat in pats:
+            for m_ in re.finditer(pat, txt):
+                ev.append((m_.start(), kind, m_.group(1)))
+        ev.sort()
+        out_, seen_match = [], set()
+        for pos_, kind, val in ev:
+            if kind == "match":
+                seen_match.add(pos_)
+        # a token name inside match(...) is reported once (as "match")
+        res = []
+        last_match_end = -1
+        for pos_, kind, val in ev:
+            if kind == "tok" and any(0 <= pos_ - mp < 40 for mp in seen_match if mp <= pos_):
+                continue
+            res.append((kind, val))
+        return res
+    py_txt = _read(os.path.join(PY, "blackbirdParser.py"))
+    cpp_txt = _read(os.path.join(CPP, "blackbirdParser.cpp"))
+    body_py = py_txt[py_txt.index("class StartContext"):] if "class StartContext" in py_txt else py_txt
+    body_cpp = cpp_txt[cpp_txt.index("StartContext::StartContext"):cpp_txt.index("_decisionToDFA", cpp_txt.index("StartContext::StartContext"))] \
+        if "StartContext::StartContext" in cpp_txt else cpp_txt
+    for kinds in (("state", "match", "predict", "alt"),):
+        a_ = [e for e in skeleton(body_py, False) if e[0] in kinds]
+        b_ = [e for e in skeleton(body_cpp, True) if e[0] in kinds]
+        diff("parser-code-skeleton", a_, b_, "state/match/prediction/alternative sequence of blackbirdParser.py and blackbirdParser.cpp")
     for fn, cls, rules in (("blackbirdParser.cpp", "blackbirdParser", list(g.rule_names)), ("blackbirdLexer.cpp", "blackbirdLexer", lexer_rules)):
         path = os.path.join(CPP, fn)
         diff("cpp-%s-ruleNames" % cls, cpp_vector(path, "_ruleNames"), rules, "%s::_ruleNames and grammar" % cls)
@@ -448,8 +506,9 @@ def _codepoint_chunk(pts):
         ch = chr(cp)
         for text in ("x" + ch + "y", ch, "1" + ch + " 2"):
             n += 1
-            want = [(t.type, t.text if t.type != -1 else "<EOF>", t.start, t.stop, t.line, t.col) for t in lx.tokens(text)]
-            got = ref.shipped_tokens(text)
+            want = [(t.type, t.text if t.type != -1 else "<EOF>", t.start, t.stop, t.line, t.col) + ((1,) if t.name.endswith("@hidden") else ())
+                    for t in lx.tokens(text, hidden=True)]
+            got = ref.shipped_tokens(text, hidden=True)
             if got != want and len(bad) < 3:
                 bad.append((text, got, want))
     return n, bad
